@@ -17,7 +17,7 @@ from typing import (
 )
 
 from pdfminer import settings
-from pdfminer.casting import safe_float, safe_rect_list
+from pdfminer.casting import safe_float, safe_matrix, safe_rect_list
 from pdfminer.cmapdb import (
     CMap,
     CMapBase,
@@ -50,7 +50,7 @@ from pdfminer.psparser import (
     PSStackParser,
     literal_name,
 )
-from pdfminer.utils import Matrix, Point, Rect, apply_matrix_norm, choplist, nunpack
+from pdfminer.utils import Point, Rect, apply_matrix_norm, choplist, nunpack
 
 if TYPE_CHECKING:
     from pdfminer.pdfinterp import PDFResourceManager
@@ -899,9 +899,15 @@ class PDFFont:
     ) -> None:
         self.descriptor = descriptor
         self.widths: FontWidthDict = resolve_all(widths)
-        self.fontname = resolve1(descriptor.get("FontName", "unknown"))
-        if isinstance(self.fontname, PSLiteral):
-            self.fontname = literal_name(self.fontname)
+        fontname = resolve1(descriptor.get("FontName", "unknown"))
+        if isinstance(fontname, PSLiteral):
+            fontname = literal_name(fontname)
+        elif isinstance(fontname, bytes):
+            fontname = fontname.decode("latin1")
+        elif not isinstance(fontname, str):
+            # null, a number, an array ...: not a name
+            fontname = "unknown"
+        self.fontname = fontname
         self.flags = int_value(descriptor.get("Flags", 0))
         self.ascent = num_value(descriptor.get("Ascent", 0))
         self.descent = num_value(descriptor.get("Descent", 0))
@@ -910,7 +916,7 @@ class PDFFont:
             self.default_width = num_value(descriptor.get("MissingWidth", 0))
         else:
             self.default_width = default_width
-        self.default_width = resolve1(self.default_width)
+        self.default_width = num_value(self.default_width)
         self.leading = num_value(descriptor.get("Leading", 0))
         self.bbox = self._parse_bbox(descriptor)
         self.hscale = self.vscale = 0.001
@@ -1084,9 +1090,18 @@ class PDFType3Font(PDFSimpleFont):
         if "FontDescriptor" in spec:
             descriptor = dict_value(spec["FontDescriptor"])
         else:
-            descriptor = {"Ascent": 0, "Descent": 0, "FontBBox": spec["FontBBox"]}
+            descriptor = {"Ascent": 0, "Descent": 0, "FontBBox": spec.get("FontBBox")}
         PDFSimpleFont.__init__(self, descriptor, widths, spec)
-        self.matrix = cast(Matrix, tuple(list_value(spec.get("FontMatrix"))))
+        matrix = None
+        matrix_values = list_value(spec.get("FontMatrix"))
+        if len(matrix_values) == 6:
+            matrix = safe_matrix(*(resolve1(v) for v in matrix_values))
+        if matrix is None:
+            if settings.STRICT:
+                raise PDFFontError("FontMatrix is not an array of six numbers")
+            # the matrix nearly every Type 3 font uses (glyph space in 1/1000)
+            matrix = (0.001, 0, 0, 0.001, 0, 0)
+        self.matrix = matrix
         (_, self.descent, _, self.ascent) = self.bbox
         # Glyph space to text space: a horizontal displacement (w, 0) scales
         # by a, a vertical extent (0, h) by d; skew components do not add up.
